@@ -198,6 +198,19 @@ class Fn:
             for x in p["pats"]:
                 self._bind_pat(x, origin, path)
 
+    def reassigned(self):
+        """ids of locals that are the target of a plain assignment `x = ..` somewhere in the body."""
+        r = getattr(self, "_reassigned", None)
+        if r is None:
+            r = set()
+            for n in H.walk(self.root):
+                if n.get("k") == "assign" and H.peel(n["l"]).get("k") == "path":
+                    loc = H.local_of(n["l"])
+                    if loc:
+                        r.add(loc[0])
+            self._reassigned = r
+        return r
+
     def parents(self, n):
         out = []
         while id(n) in self.parent:
@@ -210,6 +223,7 @@ class Fn:
         f.crate, f.body, f.root, f.subst, f.line_hook = self.crate, self.body, self.root, self.subst, self.line_hook
         f.strict = self.strict
         f.parent, f.binds = self.parent, self.binds
+        f._reassigned = self.reassigned()
         f.sel = dict(self.sel)
         f.sel.update(sel)
         return f
@@ -308,6 +322,10 @@ class Fn:
             n = o[1]
             if "init" not in n:
                 return Chain(("uninit", lid, name))
+            if lid in self.reassigned():
+                # a variable that is assigned again after its `let` (loop-carried cursor, accumulator): its value at a use is not the
+                # initialiser; never traced through (seed C12-4: `enclosing = parent.get_inner_class_parent()` inside a `while let`)
+                return Chain(("reassigned", lid, name))
             return self._apply_path(self.trace(n["init"], depth + 1), b.path, depth)
         if o[0] == "for":
             n = o[1]
